@@ -192,6 +192,33 @@ CHECKS = {
 
 NOT_YET = {}
 
+# what was added to a check after its first description was written (appended to the level text)
+ADDED = {
+ "C01": " Negative reads also carry one tolerated deviation next to the structural contradiction (terminal overhang, truncation, jitter, "
+        "whole-intron shift within delta).",
+ "C03": " The reference additionally contains 1-bp internal/terminal exons, a transcript starting at base 1 and one ending at the last base; "
+        "structures Y0/Y1 (annotated intron collapsed into a novel one 12 bp away).",
+ "C04": " Structures Y0/Y1: a novel acceptor between delta and the intron-graph clustering distance next to thin annotated coverage.",
+ "C05": " L4: every subset of {reported primary, supplementary, filtered secondary, filtered MAPQ-0 primary} placed on two unannotated "
+        "chromosomes x memory mode x threads: reported read set, log statistics and the __not_aligned line are recounted.",
+ "C06": " Four option configurations (annotated with all extra outputs, annotation-free, pacbio with all quantification modes, split loci "
+        "at scaled region constants), each with schedules, modes, group orders and PERMSET; thorough adds all pairs of set-order reversals.",
+ "C07": " Nine option worlds: plain, read-group table (+keep_tmp), gz reference + check_canonical, count_exons + sqanti, annotation-free, "
+        "two experiments from one YAML, high_memory + count_exons, gz GTF with all quantification modes.",
+ "C09": " file_name mode: every pattern of presence/absence of three loci (two on one chromosome) in 2/3 BAM files x memory mode.",
+ "C10": " Menu {A,B,C,D,E,F}: D/F consist of two files (with / without labels), E has no polyA tails; nanopore and pacbio_ccs.",
+ "C11": " Further base scenarios: reads with spurious terminal exons, C14's noise family under every splice-correction strategy, C13's "
+        "annotation grammar with --count_exons (exon/intron tables mirrored), the multi-chromosome mixed world with multimappers.",
+ "C12": " The GTF is also written Ensembl-style ('-' exons descending, CDS/codon/UTR records, extra attributes) and with scrambled records.",
+ "C13": " Annotation grammar: every subset of <=2/3 of 7 isoform shapes x 5 second-gene kinds, plus intron-less loci.",
+ "C14": " Noise menu includes an aligned (trimmed) polyA block; every pipeline run is repeated on the reverse-complemented world.",
+ "C15": " The stream alphabet contains gene infos with identical coordinates but different genes (nested gene).",
+ "C17": " Annotation chains also over histories of different read sets (the extended annotation of one read set is the reference for the next).",
+ "C18": " Pipeline worlds with an intron annotated on both strands used by a novel isoform (both annotation orders, also reverse-complemented).",
+ "C20": " File handles are bound to file objects (rename-while-open keeps writing into the renamed file); flush, fileno, fsync and directory "
+        "handles are modelled.",
+}
+
 def main():
     props = [json.loads(l) for l in open(os.path.join(HERE, "properties.jsonl"))]
     checks = []
@@ -200,6 +227,7 @@ def main():
         pid = p["id"]
         if pid in CHECKS:
             level, tech, text, note, ref = CHECKS[pid]
+            text = text + ADDED.get(pid, "")
             checks.append({
                 "property_id": pid,
                 "quick_cmd": "./check %s --tier quick" % pid,
